@@ -14,22 +14,24 @@ import (
 )
 
 type Engine struct {
-	prog           *ssa.Program
-	pkgs           map[string]*packages.Package
-	ssaPkgs        map[string]*ssa.Package
-	funcs          map[string]*ssa.Function // pkgpath::relname
-	db             *SpecDB
-	ghostByType    map[string]*GhostField
-	ghostOwnerSort map[string]string
-	ghostOwnerType map[string]types.Type
-	modulePath     string
-	repoDir        string
-	inlineDepth    int
-	inlineSize     int
-	inlinePkgs     map[string]bool
-	makeLimit      string
-	solver         *SolverPool
-	verbose        bool
+	prog            *ssa.Program
+	pkgs            map[string]*packages.Package
+	ssaPkgs         map[string]*ssa.Package
+	funcs           map[string]*ssa.Function // pkgpath::relname
+	db              *SpecDB
+	ghostByType     map[string]*GhostField
+	ghostOwnerSort  map[string]string
+	ghostOwnerType  map[string]types.Type
+	modulePath      string
+	repoDir         string
+	inlineDepth     int
+	inlineSize      int
+	inlinePkgs      map[string]bool
+	makeLimit       string
+	solver          *SolverPool
+	expectUndecided map[string]bool // obligations listed in known_findings.json / unproved.json
+	shortBudget     float64         // quick tier: solver budget for those (0 = the normal one)
+	verbose         bool
 }
 
 func LoadEngine(repoDir string, patterns []string) (*Engine, error) {
